@@ -270,54 +270,55 @@ func randBits(r *hx.Rng) uint32 {
 	return b
 }
 
-// ---------- witnesses of the known findings (independent of the seed) ----------
+// ---------- fixed first cases (independent of the seed): the witnesses of the four repaired
+// defects (expected exact now) and of the remaining finding 0 ----------
 
 func witnesses(out *hx.Out) {
 	n1 := func() *nodeSt { return &nodeSt{dc: "dc1", rack: "r1", ip: "n1", disks: []string{"", "ssd"}} }
-	// k=0: stale incremental delete
+	// repaired: stale incremental delete
 	{
 		h, n := newHist(out), n1()
 		h.join(n, map[string]uint32{"": 10})
 		h.incVol(n, nil, []volMsg{{id: 7}})
-		h.emit("witness-k0")
+		h.emit("repaired-stale-delete")
 	}
-	// k=1: two EC volumes change in one full EC heartbeat
+	// repaired: two EC volumes change in one full EC heartbeat
 	{
 		h, n := newHist(out), n1()
 		h.join(n, map[string]uint32{"": 10})
 		h.fullEc(n, []ecMsg{{1, "", 1}, {2, "", 1}})
 		h.fullEc(n, []ecMsg{{1, "", 3}, {2, "", 3}})
-		h.emit("witness-k1")
+		h.emit("repaired-ec-cumulative")
 	}
-	// k=2: max volume counts of two disk types change in one heartbeat
+	// repaired: max volume counts of two disk types change in one heartbeat
 	{
 		h, n := newHist(out), n1()
 		h.join(n, map[string]uint32{"": 10, "ssd": 5})
 		h.adjustMax(n, map[string]uint32{"": 12, "ssd": 8})
-		h.emit("witness-k2")
+		h.emit("repaired-max-shared-delta")
 	}
-	// k=3: incremental delete of a remote volume
+	// repaired: incremental delete of a remote volume
 	{
 		h, n := newHist(out), n1()
 		h.join(n, map[string]uint32{"": 10})
 		h.fullVol(n, []volMsg{{1, "", true, true}})
 		h.incVol(n, nil, []volMsg{{id: 1}})
-		h.emit("witness-k3")
+		h.emit("repaired-remote-delete")
 	}
-	// k=4: one EC volume id listed twice in a full EC heartbeat
+	// k=0: one EC volume id listed twice in a full EC heartbeat
 	{
 		h, n := newHist(out), n1()
 		h.join(n, map[string]uint32{"": 10})
 		h.fullEc(n, []ecMsg{{1, "", 1}, {1, "", 2}})
-		h.emit("witness-k4")
+		h.emit("witness-k0")
 	}
-	// k=4: an EC volume reported on another disk type than the one it is registered on
+	// k=0: an EC volume reported on another disk type than the one it is registered on
 	{
 		h, n := newHist(out), n1()
 		h.join(n, map[string]uint32{"": 10, "ssd": 4})
 		h.fullEc(n, []ecMsg{{1, "", 1}})
 		h.fullEc(n, []ecMsg{{1, "ssd", 3}})
-		h.emit("witness-k4")
+		h.emit("witness-k0")
 	}
 }
 
@@ -325,7 +326,7 @@ func witnesses(out *hx.Out) {
 
 func randomHistory(r *hx.Rng, out *hx.Out) {
 	h := newHist(out)
-	dirty := r.Chance(2, 5) // 40% of the histories may step into the known findings
+	dirty := r.Chance(2, 5) // 40% of the histories are adversarial (stale deletes, many changes at once, finding 0)
 	nn := r.Range(2, 3)
 	placements := [][2]string{{"dc1", "r1"}, {"dc1", "r1"}, {"dc1", "r2"}, {"dc2", "r1"}}
 	var nodes []*nodeSt
@@ -347,7 +348,6 @@ func randomHistory(r *hx.Rng, out *hx.Out) {
 	diskOf := func(n *nodeSt, id uint32) string { return n.disks[int(id)%len(n.disks)] }
 	genMax := func(n *nodeSt, fresh bool) map[string]uint32 {
 		m := map[string]uint32{}
-		changed := 0
 		for _, d := range n.disks {
 			cur := uint32(0)
 			if !fresh {
@@ -359,11 +359,8 @@ func randomHistory(r *hx.Rng, out *hx.Out) {
 				v = uint32(r.Range(0, 9))
 			case r.Chance(1, 8):
 				v = 0 // "the volume server may have set the max to zero"
-			case r.Chance(1, 3) && (dirty || changed == 0):
+			case r.Chance(1, 3): // several disk types may change in one heartbeat
 				v = uint32(r.Range(1, 9))
-				if v != cur {
-					changed++
-				}
 			}
 			if fresh || !r.Chance(1, 6) {
 				m[d] = v
@@ -420,12 +417,12 @@ func randomHistory(r *hx.Rng, out *hx.Out) {
 					continue
 				}
 				if v.remote && !(dirty && r.Chance(1, 2)) {
-					continue // finding 3 only in dirty histories
+					continue // remote deletes only in dirty histories
 				}
 				seen[v.id] = true
 				dels = append(dels, volMsg{id: v.id, disk: v.disk})
 			}
-			if dirty && r.Chance(1, 4) { // races with a full heartbeat: the volume is already gone (finding 0)
+			if dirty && r.Chance(1, 4) { // races with a full heartbeat: the volume is already gone
 				id := uint32(r.Range(1, 8))
 				dels = append(dels, volMsg{id: id, disk: diskOf(n, id)})
 			}
@@ -434,7 +431,7 @@ func randomHistory(r *hx.Rng, out *hx.Out) {
 			reg := regEcs(n)
 			var es []ecMsg
 			if !r.Chance(1, 10) {
-				mayChange := dirty || len(reg) <= 1
+				mayChange := true // any number of registered EC volumes may change at once
 				for _, e := range reg {
 					if mayChange && r.Chance(1, 4) {
 						continue
@@ -446,7 +443,7 @@ func randomHistory(r *hx.Rng, out *hx.Out) {
 						}
 					}
 					if dirty && r.Chance(1, 12) {
-						e.disk = n.disks[r.Intn(len(n.disks))] // reported on another disk (finding 4)
+						e.disk = n.disks[r.Intn(len(n.disks))] // reported on another disk (finding 0)
 					}
 					es = append(es, e)
 				}
@@ -470,8 +467,6 @@ func randomHistory(r *hx.Rng, out *hx.Out) {
 					}
 					es = append(es, ecMsg{id, diskOf(n, id), randBits(r)})
 				}
-			} else if len(reg) >= 2 && !dirty {
-				es = reg
 			}
 			h.fullEc(n, es)
 		case k < 18: // incremental EC heartbeat
@@ -519,7 +514,7 @@ func main() {
 	out := hx.Flags("C12", 150)
 	hx.Must(fla9.Set("alsologtostderr", "false"))
 	hx.Must(fla9.Set("v", "-1"))
-	out.Rule = "histories of 4-13 heartbeat events over 2-3 volume servers in dc1/r1, dc1/r2, dc2/r1 with disk types {\"\"}, {ssd}, {\"\",ssd} or {hdd,ssd}: join (GetOrCreateDataCenter/Rack/DataNode), AdjustMaxVolumeCounts, full and incremental volume heartbeats (volume ids 1-8, remote and read-only flags), full and incremental EC heartbeats (ids 10-14, 14-bit shard masks), UnRegisterDataNode and re-join; 60% 'clean' histories generated like a consistent volume server (expected exact), 40% 'dirty' ones add stale/remote incremental deletes, several EC volumes changing at once, duplicate or moved EC ids, several max counts changing at once; first 6 cases are the fixed witnesses of findings 0-4; the tree (counters of every node, volumes and EC shards of every disk) is read through the hook after every event; non-trivial = some snapshot has a registered volume or shard; distinct = op list"
+	out.Rule = "histories of 4-13 heartbeat events over 2-3 volume servers in dc1/r1, dc1/r2, dc2/r1 with disk types {\"\"}, {ssd}, {\"\",ssd} or {hdd,ssd}: join (GetOrCreateDataCenter/Rack/DataNode), AdjustMaxVolumeCounts, full and incremental volume heartbeats (volume ids 1-8, remote and read-only flags), full and incremental EC heartbeats (ids 10-14, 14-bit shard masks), UnRegisterDataNode and re-join; 60% 'clean' histories generated like a consistent volume server, 40% 'dirty' ones add stale/remote incremental deletes, several EC volumes changing at once, several max counts changing at once (all exact after the repairs) and duplicate or moved EC ids (finding 0); first 6 cases are fixed: the witnesses of the four repaired defects and two witnesses of finding 0; the tree (counters of every node, volumes and EC shards of every disk) is read through the hook after every event; non-trivial = some snapshot has a registered volume or shard; distinct = op list"
 	witnesses(out)
 	// Fork: consecutive seeds of hx.NewRng are one stream shifted by one draw
 	root := hx.NewRng(out.Seed).Fork()
